@@ -142,6 +142,8 @@ def _scan_param(index, fi, name, nested, depth):
                     out.append((c, cal, kw.arg))
         return out
 
+    consumed_by = [""]
+
     def scan(stmts, state):
         for st in stmts:
             if isinstance(st, ast.If):
@@ -157,9 +159,25 @@ def _scan_param(index, fi, name, nested, depth):
                 state = "materialised" if s1 == s2 == "materialised" else ("consumed" if "consumed" in (s1, s2) else state)
                 continue
             uses = [n for n in ast.walk(st) if isinstance(n, ast.Name) and n.id == name and isinstance(n.ctx, ast.Load)]
-            assigns_name = isinstance(st, ast.Assign) and isinstance(st.targets[0], ast.Name) and st.targets[0].id == name
+            assigns_name = isinstance(st, ast.Assign) and ((isinstance(st.targets[0], ast.Name) and st.targets[0].id == name) or (
+                isinstance(st.targets[0], (ast.Tuple, ast.List)) and any(isinstance(t, ast.Name) and t.id == name for t in st.targets[0].elts)))
+            # every use sits inside a materialising sub-expression (`Params(shared=list(shared_params), ...)`, `return [list(t) for t in tasks_params]`)
+            if state == "raw" and uses and not isinstance(st, (ast.For, ast.While, ast.With, ast.Try)):
+                inside = {id(n) for e in ast.walk(st) if isinstance(e, ast.expr) and materialises(e, name, nested) for n in ast.walk(e)}
+                if all(id(u) in inside for u in uses if not is_len_or_none_test(fn, u)):
+                    if assigns_name and isinstance(st.targets[0], ast.Name):
+                        state = "materialised"
+                    else:
+                        state = "consumed"
+                        consumed_by[0] = norm_text(st)[:80]
+                    continue
             if assigns_name and (not uses or materialises(st.value, name, nested)):
                 state = "materialised"
+                continue
+            if state == "raw" and isinstance(st, (ast.Assign, ast.AnnAssign)) and st.value is not None and uses and materialises(st.value, name, nested):
+                # materialised into another variable: the one-shot iterable itself is spent
+                state = "consumed"
+                consumed_by[0] = norm_text(st)[:80]
                 continue
             if not uses:
                 continue
@@ -191,7 +209,6 @@ def _scan_param(index, fi, name, nested, depth):
                                "conversion yields an empty collection")
         return state, None
 
-    consumed_by = [""]
     return scan(fn.body, "raw")
 
 
